@@ -447,6 +447,13 @@ def applyAction (st : State) (c : ConnId) (s : Sess) : Action → State
     else if s.state == .record then pauseTo st c s .preRecord
     else st
 
+/-- `ServerSession.initialize`: a new session, created by connection `c` -/
+def newSess (st : State) (c : ConnId) : Sess := { id := st.nextSess, author := c, conns := [c] }
+
+/-- `s.sessions[ss.secretID] = ss` -/
+def addSess (st : State) (s : Sess) : State :=
+  { st with sessions := st.sessions ++ [s], nextSess := st.nextSess + 1 }
+
 /-- `handleRequestInSession`, first half: which session does the request go to?  `findOrCreateSession`
 when the connection has none; otherwise its own session (a different id is an error). -/
 def resolve (st : State) (c : Conn) (r : Req) (create : Bool) : Except Nat (State × Sess × List Out) :=
@@ -463,10 +470,7 @@ def resolve (st : State) (c : Conn) (r : Req) (create : Bool) : Except Nat (Stat
     match (match r.sess with | .id x => findSess st x | _ => none) with
     | some s => .ok (st, s, [])
     | none =>
-      if create then
-        .ok ({ st with sessions := st.sessions ++ [{ id := st.nextSess, author := c.id, conns := [c.id] }],
-                       nextSess := st.nextSess + 1 },
-             { id := st.nextSess, author := c.id, conns := [c.id] }, [Out.sessOpen st.nextSess])
+      if create then .ok (addSess st (newSess st c.id), newSess st c.id, [Out.sessOpen st.nextSess])
       else .error statusSessionNotFound
 
 /-- `ServerSession.runInner`, case `chHandleRequest`: the session adds the connection to `ss.conns` -/
@@ -551,6 +555,17 @@ def deadlineArmed (st : State) (c : Conn) : Bool :=
      | none => true)
   | _ => true
 
+/-- `s.conns[sc] = struct{}{}` (a connection id is never reused) -/
+def addConn (st : State) (c : Conn) : State :=
+  if (findConn st c.id).isSome then st else { st with conns := st.conns ++ [c] }
+
+/-- A POST channel meets its GET channel: both end as connections of their own
+(`errHTTPUpgraded`: their `run` still goes through `session.removeConn` / `Server.closeConn` /
+`OnConnClose`), the merged connection starts. -/
+def mergeTunnel (st : State) (c : Conn) (get : ConnId) (fresh : ConnId) : State × List Out :=
+  (addConn (closeById (closeById st get).1 c.id).1 { id := fresh, tunnel := .http, phase := .standard },
+   Out.http c.id 200 :: Out.connOpen fresh :: ((closeById st get).2 ++ (closeById (closeById st get).1 c.id).2))
+
 /-- close the connection after an HTTP answer -/
 def httpThenClose (st : State) (c : Conn) (status : Nat) : State × List Out :=
   ((closeConn st c).1, Out.http c.id status :: (closeConn st c).2)
@@ -561,12 +576,7 @@ def freshInput (st : State) (c : Conn) : Input → State × List Out
     ({ setPhase st c.id (.httpWait cookie) with httpRead := st.httpRead ++ [(c.id, cookie)] }, [Out.http c.id 200])
   | .httpPost cookie fresh =>
     (match st.httpRead.find? (·.2 == cookie) with
-     | some e =>
-       -- both channels end as connections of their own, the merged connection starts
-       ({ st with conns := st.conns.filter (fun x => x.id != c.id && x.id != e.1)
-                             ++ [{ id := fresh, tunnel := .http, phase := .standard }],
-                  httpRead := st.httpRead.filter (fun x => x.1 != e.1 && x.1 != c.id) },
-        [Out.http c.id 200, Out.connOpen fresh, Out.connClose e.1, Out.connClose c.id])
+     | some e => mergeTunnel st c e.1 fresh
      | none => httpThenClose st c 200)
   | .httpOther => httpThenClose st c 400
   | .wsUpgrade ok =>
@@ -592,8 +602,7 @@ def connInput (st : State) (c : Conn) (i : Input) : State × List Out :=
 
 def step (st : State) : Event → State × List Out
   | .accept c =>
-    if (findConn st c).isSome then (st, [])
-    else ({ st with conns := st.conns ++ [{ id := c }] }, [Out.connOpen c])
+    if (findConn st c).isSome then (st, []) else (addConn st { id := c }, [Out.connOpen c])
   | .input c i =>
     (match findConn st c with
      | some conn => connInput st conn i
